@@ -1084,7 +1084,14 @@ impl TransactionalMemory {
         let mut state = self.state.lock().unwrap();
         // Trim surplus file space, before finalizing the commit
         let shrunk = if !matches!(shrink_policy, ShrinkPolicy::Never) {
-            Self::try_shrink(&mut state, matches!(shrink_policy, ShrinkPolicy::Maximum))?
+            let force = matches!(shrink_policy, ShrinkPolicy::Maximum);
+            let mut shrunk = Self::try_shrink(&mut state, force)?;
+            // One call trims only the last region, and dropping a wholly free trailing region
+            // exposes the free tail of the region before it. A maximum shrink must give that back
+            // too, or compact() -- whose probe allocation can grow the file across a region
+            // boundary -- leaves the file larger than it found it.
+            while force && shrunk && Self::try_shrink(&mut state, force)? {}
+            shrunk
         } else {
             false
         };
